@@ -439,6 +439,7 @@ func c08Run(c *core.C) {
 		// a derived token holds what its parent held plus what its own caller put in, also when
 		// the parent came from hostile bytes (dangling symbol index; shared with C02)
 		ds := gen.NewScenario(r, 2, scenOpts)
+		countBig(c, ds)
 		if dt, err := buildScenarioToken(c.Seed, fmt.Sprintf("c08-dang-%d", c.Idx), ds.Blocks); err == nil {
 			c02Dangling(c, dt, ds.Auth)
 		}
